@@ -88,6 +88,7 @@ type Run struct {
 	noValidate bool
 	symNodes   []*Object
 	formats    map[[2]int]Str
+	jsonMarks  map[byte]*Object
 
 	frame *Frame
 	depth int
